@@ -11,7 +11,7 @@ def jobs(tier):
             out.append(Job('%s-token%d' % (name, tf), 'ctrl.cpp', 'h_c27_gate', [cmd, tf], reach=['refused'], snippets=SN, redirect=R, stream_sink=True, timeout=1500, bounds='%s, token form %d' % (name, tf)))
         out.append(Job('%s-exact-token' % name, 'ctrl.cpp', 'h_c27_open', [cmd], reach=['accepted'], snippets=SN, redirect=R, stream_sink=True, timeout=1500, bounds='%s with the exact token' % name))
     # the same gate end to end: request bytes through the real recv_line / parse_request / handle_client dispatch of the whole unit
-    RW = {'^_ZNSt10filesystem7__cxx114path14_M_split_cmptsEv$': 'h_path_split_stub4', '?^_ZNSt10filesystem8absoluteERKNS_7__cxx114pathE$': 'h_fs_absolute4', '?^_ZNKSt10filesystem7__cxx114path11parent_pathEv$': 'h_fs_parent_empty4'}
+    RW = {'^_ZNSt10filesystem7__cxx114path14_M_split_cmptsEv$': 'h_path_split_stub4', '?^_ZNSt10filesystem8absoluteERKNS_7__cxx114pathE$': 'h_fs_absolute4', '?^_ZNKSt10filesystem7__cxx114path11parent_pathEv$': 'h_fs_parent_empty4', '?^_ZNSt10filesystem8absoluteERKNS_7__cxx114pathERSt10error_code$': 'h_fs_absolute_ec4'}
     for cmd, name in ((0, 'stop'), (1, 'store'), (2, 'fetch-out'), (3, 'fetch-stream')):
         for tf in (0, 1, 2, 3, 4):
             out.append(Job('wire-%s-token%d' % (name, tf), 'ctrl_full.cpp', 'h_c27_wire', [cmd, tf], reach=['refused'], redirect=RW, timeout=1500, bounds='%s as request bytes (symbolic letter case, header order), token form %d' % (name, tf)))
